@@ -303,7 +303,7 @@ fn wide_rows(ctx: &Ctx, rep: &mut Report) {
 /// middle, bottom), whatever has to be dropped below it.
 fn dense_extreme_narrowing(ctx: &Ctx, rep: &mut Report) {
     use rayon::prelude::*;
-    let sizes: Vec<(usize, usize)> = ctx.tier.pick(vec![(40, 30), (100, 50), (300, 200)], vec![(40, 30), (100, 50), (300, 200), (400, 200), (132, 400), (1000, 70)]);
+    let sizes: Vec<(usize, usize)> = ctx.tier.pick(vec![(40, 30), (100, 50), (300, 200), (250, 500)], vec![(40, 30), (100, 50), (300, 200), (250, 500), (400, 300), (132, 1000), (1000, 150)]);
     let mut cases: Vec<((usize, usize), (usize, usize), (usize, usize))> = vec![];
     for &(w, h) in &sizes {
         for cur in [(0usize, 0usize), (w / 2, 3), (w - 1, h / 2), (1, h - 2), (w - 1, h - 1)] {
@@ -320,7 +320,7 @@ fn dense_extreme_narrowing(ctx: &Ctx, rep: &mut Report) {
                 let mut s = String::new();
                 for r in 0..h {
                     // rows alternate between soft-wrapped full rows and shorter hard-ended ones
-                    let len = if r % 3 == 2 { w / 2 } else { w };
+                    let len = if r % 3 == 2 { w - 1 - r % 5 } else { w };
                     for k in 0..len {
                         s.push(char::from_u32('a' as u32 + ((r * 7 + k) % 26) as u32).unwrap());
                     }
